@@ -42,7 +42,7 @@ def check_seq(seq, comp, want_perm, case):
         out.append({"key": key, "what": what, "case": dict(case, **kw)})
     refs = R.dmax_ref(*comp)
     try:
-        m = SP(seq).get_deltaMax()
+        m = core.sp(seq).get_deltaMax()
         ncalls += 1
     except Exception as e:  # noqa
         v("exception", "get_deltaMax() raised %r for %s" % (e, seq))
